@@ -27,6 +27,7 @@
 
 from __future__ import annotations
 
+import html
 import re
 
 from .html import BaseHTMLProcessor
@@ -808,7 +809,12 @@ class HTMLSanitizer(BaseHTMLProcessor):
                 key = keymap.get(key, key)
                 # make sure the uri uses an acceptable uri scheme
                 if key in ("href", "xlink:href"):
-                    value = make_safe_absolute_uri(value)
+                    # the scheme may be spelled with character references,
+                    # which a browser decodes before it looks at the URI
+                    if make_safe_absolute_uri(html.unescape(value)):
+                        value = make_safe_absolute_uri(value)
+                    else:
+                        value = ""
                 clean_attrs.append((key, value))
         super().unknown_starttag(tag, clean_attrs)
 
